@@ -141,7 +141,8 @@ def main():
             unbound.append(nm)
     # one violation line per function is enough; group
     wall = time.time() - t0
-    os.makedirs(os.path.join(ROOT, 'evidence'), exist_ok=True)
+    evdir = os.path.join(ROOT, 'evidence') if os.path.realpath(repo) == '/repo' else os.path.join(os.environ.get('GOCV_TMP', '/var/tmp'), 'gocv-evidence')
+    os.makedirs(evdir, exist_ok=True)
     if update:
         lock[pid] = {nm: 'discharged' for nm in sorted(discharged) if allobs[nm][1]['time_s'] <= (opts['timeout'] / 1000.0) * 0.5 * max(1, allobs[nm][1]['instances'])}
         json.dump(lock, open(LOCK, 'w'), indent=0, sort_keys=True)
@@ -183,7 +184,7 @@ def main():
         },
         'assumptions': sorted(assumptions), 'wall_s': round(wall, 2), 'violations': len(violations),
     }
-    json.dump(evid, open(os.path.join(ROOT, 'evidence', pid + '.json'), 'w'), indent=1)
+    json.dump(evid, open(os.path.join(evdir, pid + '.json'), 'w'), indent=1)
     for nm in sorted(known_hit):
         k = known_names[nm]
         print('KNOWN-FINDING: property=%s %s — %s' % (pid, nm, k.get('what', '')))
@@ -201,7 +202,7 @@ def main():
         sys.exit(0)
     # ---- report violations, with replay where a driver exists ----
     import replay
-    rdir = os.path.join(ROOT, 'replays', pid); os.makedirs(rdir, exist_ok=True)
+    rdir = os.path.join(ROOT if os.path.realpath(repo) == '/repo' else os.path.join(os.environ.get('GOCV_TMP', '/var/tmp'), 'gocv-evidence'), 'replays', pid); os.makedirs(rdir, exist_ok=True)
     seen_fn = set()
     for nm, r, o, why in violations:
         fnm = r['fn']
